@@ -33,6 +33,16 @@ CHECKS["C02"] = ("model_checking",
     "TLA+ CRC spec by long division + TLC model checking of error-pattern classes + trace validation of table, checksums and decode decisions",
     "DESIGN.md section 6, C02")
 
+CHECKS["C18"] = ("model_checking",
+    "GpsTime.tla states both conversions on (second, nanosecond) and (day, second) pairs. TLC checks on the spec that the "
+    "time-of-day lies in [0, 86400) for every second of the week and that the constructive week start satisfies the "
+    "property's two conditions (and is the unique such time) for every day 1980-2110 at boundary seconds. The code is bound "
+    "by validating TLC-generated calls (every UTC midnight +-60 s, first/last minute of the week, ns extremes, week "
+    "boundaries +-40 s, seeded random) against the spec; the week start is judged by the property's own predicate.",
+    "Trusted: TLC. GPS-UTC = 18 s as stated by the property. Inputs are dense around the boundaries and sampled elsewhere.",
+    "TLA+ spec in pair arithmetic + TLC model checking + trace validation of TLC-generated calls",
+    "DESIGN.md section 6, C18")
+
 PENDING_REASON = "check under construction in this session (see DESIGN.md section 6 for the planned TLA+ design); not claimed until it runs clean"
 
 
